@@ -107,7 +107,7 @@ func checkC14(seed uint64, replayDir, corpusDir string) (map[string]any, int) {
 	t := newRelTotals("C14")
 	n := 2500 * tierScale()
 	base := newRng(seed ^ hashStr("C14"))
-	forms := []string{"plain", "pre", "json", "builder", "repre"}
+	forms := []string{"plain", "pre", "json", "builder", "repre", "partial"}
 	const batch = 500
 	for start := 0; start < n; start += batch {
 		groups := [][]*EvalCase{}
@@ -126,8 +126,8 @@ func checkC14(seed uint64, replayDir, corpusDir string) (map[string]any, int) {
 			// in the two hand-built forms, which need not be expressible in JSON or by the builders,
 			// and with the forms mixed between the items of the case
 			raw := cloneCase(c)
-			rawG := []*EvalCase{setForms(raw, "plain"), setForms(raw, "pre"), setForms(raw, "repre"),
-				setMixedForms(raw, r, []string{"plain", "pre", "repre"}, "mixed-1"), setMixedForms(raw, r, []string{"plain", "pre", "repre"}, "mixed-2")}
+			rawG := []*EvalCase{setForms(raw, "plain"), setForms(raw, "pre"), setForms(raw, "repre"), setForms(raw, "partial"),
+				setMixedForms(raw, r, []string{"plain", "pre", "repre", "partial"}, "mixed-1"), setMixedForms(raw, r, []string{"plain", "pre", "repre", "partial"}, "mixed-2")}
 			sanitizeCase(c)
 			g := []*EvalCase{}
 			for _, f := range forms {
@@ -645,11 +645,20 @@ func checkC12(seed uint64, replayDir, corpusDir string) (map[string]any, int) {
 		shared := newSetupWithProvider(&opts, ms, bsp)
 		steps := 5 + r.intn(30)
 		var prev *EvalCase
+		var builtStore *realStore
+		var builtFlag *ldmodel.FeatureFlag
 		hist := []*EvalCase{}
 		for s := 0; s < steps; s++ {
 			var c *EvalCase
+			samePointers := false
 			if prev != nil && r.chance(1, 4) {
-				c = cloneCase(prev) // the same call repeated
+				c = cloneCase(prev) // the same call repeated: the very same flag and store objects,
+				samePointers = true // sometimes for another context
+				if r.bool() {
+					gg := &gen{r: r.fork(), p: profiles["wellformed"]}
+					c.Ctx = gg.context()
+					c.ID = fmt.Sprintf("C12/%d/%d/%d", seed, h, s)
+				}
 			} else if prev != nil && r.chance(1, 2) {
 				// the same flag and context again, but the store has moved on: items replaced by
 				// other content under the same key (same or different version), deleted, re-added
@@ -661,7 +670,7 @@ func checkC12(seed uint64, replayDir, corpusDir string) (map[string]any, int) {
 				gg.ctxKeys = ctxKeysOf(&c.Ctx)
 				c.BS = gg.bigSegProvider(&c.Ctx, append(append([]WSegment{}, c.Store.Segments...), prev.Store.Segments...))
 			} else {
-				c = genStream(pick(r, []string{"wellformed", "prereqs", "bigseg", "segments", "malformed", "manykinds", "targets"}), r.fork(), fmt.Sprintf("C12/%d/%d/%d", seed, h, s))
+				c = genStream(pick(r, []string{"wellformed", "prereqs", "bigseg", "segments", "malformed", "manykinds", "targets", "graphs", "wide", "operators", "bucketdense"}), r.fork(), fmt.Sprintf("C12/%d/%d/%d", seed, h, s))
 				if prev != nil && r.chance(1, 2) {
 					// the next call sees an updated version of the previous store: some items replaced, some deleted
 					c.Store = mutateStore(r, &prev.Store, &c.Store)
@@ -688,15 +697,21 @@ func checkC12(seed uint64, replayDir, corpusDir string) (map[string]any, int) {
 				}()
 				store := buildStore(&c.Store)
 				flag := c.Flag.build()
+				if samePointers && builtStore != nil {
+					store, flag = builtStore, builtFlag
+				}
+				builtStore, builtFlag = store, flag
 				ctx := c.Ctx.build()
 				ms.cur = store
 				before := snapshot(store, flag, ctx)
 				keys := logKeysFor(c)
-				o1 := shared.evalOnce(flag, ctx, true, keys)
+				rec := !r.chance(1, 4) // some calls of a history have no event recorder
+				c.Opts.Rec = rec
+				o1 := shared.evalOnce(flag, ctx, rec, keys)
 				after := snapshot(store, flag, ctx)
 				fresh := newSetup(&opts, store, c.BS)
-				o2 := fresh.evalOnce(flag, ctx, true, keys)
-				o3 := shared.evalOnce(flag, ctx, true, keys) // repeated call
+				o2 := fresh.evalOnce(flag, ctx, rec, keys)
+				o3 := shared.evalOnce(flag, ctx, rec, keys) // repeated call
 				t.evaluations++
 				t.counts["steps"]++
 				if before != after {
